@@ -6,7 +6,7 @@ from uecheck.run import run_property, PROPS
 from uecheck.facts import Facts
 only = sys.argv[1:]
 tot = 0
-for d in sorted(glob.glob("/verif/.work/facts-C*-[rstu]")):
+for d in sorted(glob.glob("/verif/.work/facts-C*-[rstuv]")):
     sid = os.path.basename(d)[6:]
     if only and sid not in only:
         continue
